@@ -160,7 +160,7 @@ pub struct GenOpts {
 pub fn gen_scn(rng: &mut Rng, exec: u64, prop: Prop, o: &GenOpts) -> Scn {
   let seed = rng.next();
   let policy = o.policy.unwrap_or(ALL_POLICIES[(exec % 8) as usize]);
-  let profile = if o.no_chaos { chaos::Profile::OFF } else { chaos::Profile::pick(rng) };
+  let profile = if o.no_chaos { chaos::Profile::OFF } else { pick_profile(rng) };
   let janitor_tick_us = rng.range(1000, 5000);
   let maint_chance = *rng.pick(&[1u32, 1, 1, 4, 16]);
   let mut s = Scn {
